@@ -1,3 +1,4 @@
+#![recursion_limit = "512"]
 //! ksim: deterministic simulation of kanal with fault injection.
 //!
 //!   ksim check <PROP> <quick|thorough>      driver: forks workers, merges, writes evidence, verdict
@@ -13,6 +14,7 @@ mod enumcases;
 mod explain;
 mod gen;
 mod interp;
+mod miri;
 mod lockh;
 mod shrink;
 mod model;
